@@ -15,7 +15,9 @@ from vf import fuzz
 from vf.core import Ctx, HarnessError, require, sut
 
 META = {'rule': 'roundtrip: matrices as in C05 (symmetric / asymmetric / almost '
-         'symmetric, values up to 10^12, n <= 12, thorough 24) with drawn '
+         'symmetric, values up to 10^12, class huge up to (10^15-1)/n, and '
+         'ordinary matrices with one entry raised to 10^12+1 .. 4*10^14; '
+         'n <= 12, thorough 24) with drawn '
          'sanitised names and 0-3 comments -> to_stream -> _from_stream or '
          'from_file; the written text is also decoded by an independent '
          "reader. explicit: the same matrices written by the check's own "
@@ -28,7 +30,8 @@ META = {'rule': 'roundtrip: matrices as in C05 (symmetric / asymmetric / almost 
          'negative, also in exponent notation), decimals with 1-3 fractional '
          'digits, dyadic decimals (multiples of 1/2, 1/4, 1/8) for EUC_2D / '
          'CEIL_2D / ATT, collinear half-integer points (exact rounding '
-         'ties), DDD.MM coordinates for GEO; non-trivial = at least one '
+         'ties), DDD.MM coordinates (also with fractions of a minute, '
+         'DDD.MMmm) for GEO; non-trivial = at least one '
          'distance is not an integer before rounding (GEO: up to 16 points). '
          'tours: all shipped tours (enumerated). shipped_coords: every pair '
          'of cities of every shipped coordinate instance with <= 80 '
@@ -106,8 +109,8 @@ def header(draw: Any, pairs: list[tuple[str, str]],
 @st.composite
 def roundtrip_cases(draw: Any, max_n: int) -> dict:
     mat = draw(gen_mat.tsp_matrix(min_n=2, max_n=max_n))
-    if draw(st.integers(0, 9)) == 0:
-        # distances above 10^12: the constructor admits every matrix whose
+    if mat["cls"] != "huge" and draw(st.integers(0, 9)) == 0:
+        # one distance above 10^12 in an otherwise ordinary matrix: the constructor admits every matrix whose
         # sum of row maxima stays <= 10^15
         m, n = mat["m"], mat["n"]
         big = draw(st.sampled_from([10 ** 12 + 1, 2 * 10 ** 12,
@@ -118,7 +121,7 @@ def roundtrip_cases(draw: Any, max_n: int) -> dict:
         m[i][j] = big
         if sym:
             m[j][i] = big
-        mat["cls"] = "huge"
+        mat["cls"] = "one_huge"
         mat["in_dtype"] = "int64"
     return {"mat": mat,
             "name": draw(gen_mat.names()),
